@@ -79,6 +79,7 @@ func init() {
 			ruleHashMove(w, r, nt)
 			ruleHashCover(w, r, nt)
 			ruleDeleteVoid(w, r, pf)
+			ruleArrayDispatch(w, r, v2, "v2", "diff", "patch")
 			ruleObjRecurse(w, r, v2, "v2")
 			r.Floor("R-PATHFRESH", 15)
 			r.Floor("R-KINDS", 5)
@@ -99,6 +100,7 @@ func init() {
 			ruleDescend(w, r, pf)
 			ruleNotIgnored(w, r, pf, listModePatch)
 			ruleCreateOnlyMerge(w, r, pf, nil)
+			ruleArrayDispatch(w, r, v2, "v2", "patch")
 			ruleEqSize(w, r, newNodeTypes(w, v2, "v2"))
 			r.Floor("R-EXPECT", 12)
 			r.Floor("R-FWD", 80)
@@ -106,8 +108,8 @@ func init() {
 		}})
 
 	register(&PropSpec{ID: "C04",
-		Explain:     "Decides structural necessary conditions of Equals: (R-TYPEGUARD) every Equals can answer anything but false only after a successful assertion that the (dispatched) argument has the receiver's own type; (R-HASHDOM) hash inputs of different node types are domain-separated by a constant 8-byte tag, pairwise distinct — necessary because SET/MULTISET equality compares digests; (R-HASHCOVER) each digest depends on everything the type's Equals compares; (R-OPTFWD, Equals side) nested comparisons receive the caller's options. (R-DISPATCH) the option -> container table extracted from dispatch is SET and SetKeys -> set, MULTISET -> multiset, none -> list; (R-EQSIZE) one-sided container comparisons compare both lengths.",
-		NotDecided:  "64-bit digest collisions within a type, precision arithmetic, reflexivity/symmetry on concrete values.",
+		Explain:     "Decides structural necessary conditions of Equals: (R-TYPEGUARD) every Equals can answer anything but false only after a successful assertion that the (dispatched) argument has the receiver's own type; (R-HASHDOM) hash inputs of different node types are domain-separated by a constant 8-byte tag, pairwise distinct — necessary because SET/MULTISET equality compares digests; (R-HASHCOVER) each digest depends on everything the type's Equals compares; (R-OPTFWD, Equals side) nested comparisons receive the caller's options. (R-DISPATCH) the option -> container table extracted from dispatch is SET and SetKeys -> set, MULTISET -> multiset, none -> list; (R-EQSIZE) one-sided container comparisons compare both lengths; (R-TOLERANCE) the numeric Equals compares the plain distance of the two numbers with the plain Precision value: no multiplication, division, rounding or non-zero constant in the slice of the comparison.",
+		NotDecided:  "64-bit digest collisions within a type, floating-point rounding of the subtraction itself, reflexivity/symmetry on concrete values.",
 		Assumptions: commonAssumptions,
 		Run: func(w *World, r *Report) {
 			v2 := w.Pkg(pathV2)
@@ -120,6 +122,7 @@ func init() {
 			ruleDispatchTable(w, r, v2)
 			ruleEqSize(w, r, nt)
 			ruleHashEq(w, r, nt)
+			ruleTolerance(w, r, nt)
 			ruleOptFwd(w, r, v2, "v2", "Option", equalsSide, nil)
 			r.Floor("R-TYPEGUARD", 10)
 			r.Floor("R-HASHDOM", 10)
@@ -261,6 +264,8 @@ func init() {
 			ruleIdentProv(w, r, v2, "v2")
 			ruleSearchAll(w, r, pf, setModePatch)
 			ruleKeyBind(w, r, pf)
+			ruleArrayDispatch(w, r, v2, "v2", "patch")
+			ruleSetTarget(w, r, pf)
 			ruleNotIgnored(w, r, pf, setModePatch)
 			r.Floor("R-EXPECT", 6)
 		}})
@@ -282,6 +287,10 @@ func init() {
 			ruleWholeContainer(w, r, v2, "v2", "Add")
 			ruleWholeObject(w, r, v2, "v2", "Add")
 			ruleObjRecurse(w, r, v2, "v2")
+			// a common subsequence that is not the longest makes the walk restate equal elements (- x / + x)
+			r.Only(func(o Ob) bool {
+				return o.Rule == "R-LCSDEP" && !strings.Contains(o.Key, "kinds-only") && !strings.Contains(o.Key, "same-kind-recursion")
+			}, func(sub *Report) { ruleListDiff(w, sub, v2) })
 			nt := newNodeTypes(w, v2, "v2")
 			ruleHashMove(w, r, nt)
 			ruleHashCover(w, r, nt)
@@ -375,6 +384,7 @@ func init() {
 			rulePathFresh(w, r, v2, "v2")
 			ruleDeleteVoid(w, r, newPatchFamily(w, v2, "v2"))
 			ruleWholeObject(w, r, v2, "v2", "Add")
+			ruleObjRecurse(w, r, v2, "v2")
 		}})
 	register(&PropSpec{ID: "C12",
 		Explain:     "Decides structural necessary conditions of reading RFC 7386: (R-MERGEHUNK, reader side) every hunk readMergeInto builds carries Metadata.Merge, a null becomes a void addition (delete), and patchAll selects merge strategy exactly for hunks with the flag (R-FWD driver), so the leaf patch replaces instead of demanding an old value. A fresh empty object enters a hunk only on the edge where the patch object has no members (RFC 7386 merges a non-empty patch object member by member).",
@@ -400,6 +410,7 @@ func init() {
 		Run: func(w *World, r *Report) {
 			v2 := w.Pkg(pathV2)
 			ruleListDiff(w, r, v2)
+			ruleArrayDispatch(w, r, v2, "v2", "diff")
 			ruleProv(w, r, v2, "v2", map[string]string{"Before": "b", "After": "a"})
 		}})
 }
@@ -436,6 +447,7 @@ func init() {
 			rulePair(w, r, lib, "lib")
 			rulePathFresh(w, r, lib, "lib")
 			ruleWholeObject(w, r, lib, "lib", "NewValues")
+			ruleObjRecurse(w, r, lib, "lib")
 			ruleJSONCodec(w, r, lib, "lib")
 			ruleDeleteVoid(w, r, newPatchFamily(w, lib, "lib"))
 			ruleScanErr(w, r, lib, "lib")
